@@ -126,7 +126,19 @@ func c13Wire(c *ctx) {
 				if cs.Query != "" {
 					target += "?" + cs.Query
 				}
+				// a redirect route answers every request from the request alone, also one that asks for an event stream or a
+				// websocket upgrade
+				kind := choose(r, []string{"", "", "", "sse", "websocket"})
 				raw := fmt.Sprintf("GET %s HTTP/1.1\r\nHost: %s\r\nX-Verif-Id: %s\r\nConnection: close\r\n\r\n", target, cs.Host, id)
+				switch kind {
+				case "sse":
+					raw = fmt.Sprintf("GET %s HTTP/1.1\r\nHost: %s\r\nX-Verif-Id: %s\r\nAccept: text/event-stream\r\nConnection: close\r\n\r\n", target, cs.Host, id)
+				case "websocket":
+					raw = fmt.Sprintf("GET %s HTTP/1.1\r\nHost: %s\r\nX-Verif-Id: %s\r\nUpgrade: websocket\r\nConnection: Upgrade\r\nSec-WebSocket-Key: dGhlIHNhbXBsZSBub25jZQ==\r\nSec-WebSocket-Version: 13\r\n\r\n", target, cs.Host, id)
+				}
+				if kind != "" {
+					c.R.Count("redirect_requests_"+kind, 1)
+				}
 				resp := rawhttp.Do(dial, []byte(raw), "GET")
 				hit := rg.up.Take(id) != nil
 				vin := map[string]any{"Case": cs}
@@ -223,6 +235,9 @@ func c17Wire(c *ctx) {
 					Headers: []rawhttp.Header{{Name: "Content-Type", Value: ct}, {Name: "X-Up", Value: id}}}
 				if pre != "" {
 					sc.Headers = append(sc.Headers, rawhttp.Header{Name: "Content-Encoding", Value: pre})
+				}
+				if r.Intn(8) == 0 {
+					sc.Info = []int{103} // an informational response before the final one
 				}
 				rg.up.SetScript(id, sc)
 				var b strings.Builder
